@@ -71,7 +71,11 @@ func (s *Streamer) Stream(ctx context.Context, sendTransaction SendTransactionFu
 	s.sendTransaction = sendTransaction
 	var events <-chan replication.BinlogEvent
 	var pos Position
-	events, err = conn.startDumpFromBinlogPosition(ctx, s.serverID, s.binlogPosition())
+	// The reader goroutine must not outlive this call: when parsing stops while
+	// the reader is waiting to hand an event over, only its context can wake it.
+	readerCtx, stopReader := context.WithCancel(ctx)
+	defer stopReader()
+	events, err = conn.startDumpFromBinlogPosition(readerCtx, s.serverID, s.binlogPosition())
 	if err != nil {
 		return err.msgf("startDumpFromBinlogPosition fail in pos: %+v", s.nowPos)
 	}
